@@ -5,7 +5,8 @@ LEVEL = "exploration"
 BATCH = 8
 BATCH_TIMEOUT = 3000
 RULE = ("case = (user/sys clock period pair and phases: equal, 2:1, 1:2, 3:7, 7:3, near-equal drifting pairs, random; FIFO "
-        "depths; traffic class; back-pressure profile of the abstract core stub; seed); LiteDRAMNativePortCDC between a "
+        "depths; traffic class; back-pressure profile of the abstract core stub; user-side back-pressure on returned read data "
+        "(rdata.ready random, at most rdata_depth-2 reads kept outstanding) in half of the reading cases; seed); LiteDRAMNativePortCDC between a "
         "user-domain contract master and the sys-domain pulsed core stub, two free-running clocks; per channel the sequence "
         "accepted on the source side must equal the sequence delivered on the destination side (exactly once, in order, "
         "nothing invented) and user-side memory semantics must hold; non-trivial iff >=100 commands and >=40 words per data "
@@ -42,8 +43,11 @@ def cases(tier, seed):
                  cmd_ready_prob=r.choice([1.0, 0.7, 0.3]), extra_lat=r.choice([(0, 0), (0, 8), (0, 40)]),
                  long_stall=r.choice([0, 0.005, 0.02]), max_outstanding=cbd + 2,
                  gap_scale=r.choice([0.1, 0.5, 1.0]), master_mode=r.choice(["fifo", "strict"]), seed="C08/%d/%d" % (seed, k))
-        c["name"] = "%04d-sys%d-usr%d-%s-%s-d%d.%d.%d-o%d" % (k, psys, pusr, c["mode"], c["cls"], c["cmd_depth"], c["wdata_depth"],
-                                                            c["rdata_depth"], c["max_outstanding"])
+        # user-side back-pressure on read data (the user port is a stream): a master that stalls its read channel and keeps no
+        # more reads outstanding than the crossing's read FIFO can hold
+        c["rdata_ready_prob"] = r.choice([0.7, 0.3, 0.1]) if (k // 2) % 2 == 1 and c["mode"] != "write" else None
+        c["name"] = "%04d-sys%d-usr%d-%s-%s-d%d.%d.%d-o%d%s" % (k, psys, pusr, c["mode"], c["cls"], c["cmd_depth"], c["wdata_depth"],
+                                                              c["rdata_depth"], c["max_outstanding"], "-rbp" if c["rdata_ready_prob"] else "")
         c["cost"] = c["nops"] * max(1, pusr // psys)
         c["kind"] = "cdc"
         out.append(c)
@@ -57,6 +61,7 @@ def cases(tier, seed):
                  cmd_buffer_depth=cbd, nops=r.randint(150, 260), cls=["mixed", "one-row-reads", "one-row-writes", "streams"][k % 4],
                  data_width=r.choice([None, None, 8, 64]) if k % 3 == 2 else None, refresh=bool(k % 2), gap_scale=r.choice([0.1, 0.5]),
                  master_mode=r.choice(["fifo", "strict"]), seed="C08/core/%d/%d" % (seed, k))
+        c["rdata_ready_prob"] = r.choice([0.5, 0.2]) if k % 2 == 1 and not c["data_width"] else None
         if c["data_width"]:
             c["cls"] = "streams"     # converter class M only (C07's open finding is not C08's business)
         c["name"] = "core%03d-sys%d-usr%d-cbd%d-%s-dw%s" % (k, c["psys"], c["pusr"], cbd, c["cls"], c["data_width"])
@@ -125,6 +130,9 @@ def run_core_case(c):
     violations = []
     m = NativeMaster(port, ops, 0, oracle, c["master_mode"], violations)
     m.strobe_semantics = False
+    if c.get("rdata_ready_prob"):
+        m.rdata_ready_prob, m.rdata_rng = c["rdata_ready_prob"], random.Random(c["seed"] + "/rbp")
+        m.max_reads_outstanding = 14          # get_port(clock_domain=...) builds a 16-deep read FIFO
     m.use_last = bool(c["data_width"]) and ub < core_bytes
     state = {}
     ratio = max(1, c["pusr"] // c["psys"] + 1)
@@ -172,6 +180,7 @@ def run_core_case(c):
     over_r, over_w = 16 < need, 16 < need + 1
     st = dict(cmds=len(m.accepted), rwords=m.rbeats, wwords=m.wbeats, reads_checked=m.checked_reads, cycles=cycles,
               user_cmd_stalls=m.cmd_stalls, user_wdata_stalls=m.wdata_stalls, dfi_rd=len(ref.rd_log), dfi_wr=len(ref.wr_log),
+              user_rdata_stalled_with_valid=m.rdata_stalled_with_valid,
               refs=ref.counts.get("REF", 0))
     st["class"] = "overcommitted" if (over_r or over_w) and not c["data_width"] else "bounded"
     for x in v:
@@ -230,6 +239,9 @@ def run_case(c):
     violations = []
     m = NativeMaster(dut.port_user, ops, 0, oracle, c["master_mode"], violations)
     m.strobe_semantics = False
+    if c.get("rdata_ready_prob"):
+        m.rdata_ready_prob, m.rdata_rng = c["rdata_ready_prob"], random.Random(c["seed"] + "/rbp")
+        m.max_reads_outstanding = max(1, c["rdata_depth"] - 2)
     state = {}
     ratio = max(1, c["pusr"] // c["psys"] + 1)
     bound = 3000 * ratio
@@ -275,6 +287,7 @@ def run_case(c):
         v.append(dict(kind="rdata-channel-differs", index=k, n_source=len(src_r), n_destination=len(dst_r)))
     st = dict(cmds=len(dst_cmd), wwords=len(dst_w), rwords=len(dst_r), reads_checked=m.checked_reads, cycles=cycles,
               user_cmd_stalls=m.cmd_stalls, user_wdata_stalls=m.wdata_stalls, max_outstanding_seen=stub.max_out_seen,
+              user_rdata_stalled_with_valid=m.rdata_stalled_with_valid,
               underruns=sum(1 for e in stub.events if e["kind"] == "wdata-underrun"),
               drops=sum(1 for e in stub.events if e["kind"] == "rdata-dropped"))
     need_w = 40 if c["mode"] != "read" else 0
@@ -284,6 +297,8 @@ def run_case(c):
     need_r_depth = c["cmd_depth"] + c["max_outstanding"]
     need_w_depth = c["cmd_depth"] + c["max_outstanding"] + 1
     over_r = c["mode"] != "write" and c["rdata_depth"] < need_r_depth
+    if c.get("rdata_ready_prob"):
+        over_r = False       # this master never has more reads outstanding than the read FIFO holds
     over_w = c["mode"] != "read" and c["wdata_depth"] < need_w_depth
     st["class"] = "overcommitted" if (over_r or over_w) else "bounded"
     for x in v:
